@@ -1139,6 +1139,98 @@ def gen_worker():
 GENERATORS["Worker.lean"] = gen_worker
 
 
+def enum_variants(src, name):
+    m = re.search(r"enum %s\s*\{(.*?)\}" % name, src, re.S)
+    if not m:
+        raise TranslateError(f"enum {name} not found")
+    body = re.sub(r"#\[[^\]]*\]", "", m.group(1))
+    return [v.strip() for v in body.split(",") if v.strip()]
+
+
+def gen_rules():
+    """src/pattern.rs: can_append_to (C07's shortcut rule); src/lib.rs: State::{matcher_item_refs,canceled,cleared} and the
+    formula of active_injectors (C20)"""
+    psrc = strip_comments(read("src/pattern.rs"))
+    msrc = strip_comments(read("matcher/src/pattern.rs"))
+    lsrc = strip_comments(read("src/lib.rs"))
+    kinds = enum_variants(msrc, "AtomKind")
+    if kinds != ["Fuzzy", "Substring", "Prefix", "Postfix", "Exact"]:
+        raise TranslateError(f"AtomKind variants are {kinds}")
+    body = fn_bodies(psrc).get("can_append_to", [None])[0]
+    if body is None:
+        raise TranslateError("fn can_append_to not found")
+    m = re.fullmatch(r"\{\s*if atom\.negative \|\| matches!\(atom\.kind, ([A-Za-z:| ]+)\) \{\s*return false;\s*\}\s*"
+                     r"match atom\.needle_text\(\)\.chars\(\)\.next_back\(\) \{(.*?)\}\s*\}", body.strip(), re.S)
+    if not m:
+        raise TranslateError("can_append_to has an unexpected shape")
+    excl = [k.strip().replace("AtomKind::", "") for k in m.group(1).split("|")]
+    if any(k not in kinds for k in excl):
+        raise TranslateError(f"can_append_to excludes {excl}")
+    arms = re.findall(r"(Some\('(\\\\|\\?.)'\)|_)\s*=>\s*([^,]+),", m.group(2))
+    if not arms or arms[-1][0] != "_":
+        raise TranslateError("can_append_to: the match has no catch-all arm at the end")
+    def arm_val(e):
+        e = e.strip()
+        if e in ("true", "false"):
+            return e
+        mm = re.fullmatch(r"atom\.kind == AtomKind::(\w+)", e)
+        if mm and mm.group(1) in kinds:
+            return f"(kind == {kinds.index(mm.group(1))})"
+        raise TranslateError(f"can_append_to: arm value {e!r}")
+    lines = []
+    for pat, ch, val in arms:
+        if pat == "_":
+            lines.append(f"    | _ => {arm_val(val)}")
+        else:
+            c = {"\\\\": "\\"}.get(ch, ch)
+            lines.append(f"    | some {ord(c)} => {arm_val(val)}")
+    out = ["/- GENERATED by translator/translate.py from src/pattern.rs, src/lib.rs and matcher/src/pattern.rs — do not edit -/",
+           "namespace NucleoVerif.Gen.Rules", "",
+           "/-- `AtomKind` variants in declaration order: " + ", ".join(f"{i} = {k}" for i, k in enumerate(kinds)) + " -/",
+           f"def atomKinds : Nat := {len(kinds)}", "",
+           "/-- `fn can_append_to(atom)`: `last` = the last character of the atom's needle text -/",
+           "def can_append_to (negative : Bool) (kind : Nat) (last : Option Nat) : Bool :=",
+           "  if negative || (" + " || ".join(f"kind == {kinds.index(k)}" for k in excl) + ") then false",
+           "  else match last with"] + lines + [""]
+    # State
+    states = enum_variants(lsrc, "State")
+    if states != ["Init", "Cleared", "Fresh"]:
+        raise TranslateError(f"State variants are {states}")
+    body = fn_bodies(lsrc).get("matcher_item_refs", [None])[0]
+    m = re.fullmatch(r"\{\s*match self \{(.*?)\}\s*\}", (body or "").strip(), re.S)
+    if not m:
+        raise TranslateError("State::matcher_item_refs has an unexpected shape")
+    refs = {}
+    for pats, val in re.findall(r"([A-Za-z:| ]+?)\s*=>\s*(\d+),", m.group(1)):
+        for pt in pats.split("|"):
+            refs[pt.strip().replace("State::", "")] = int(val)
+    if sorted(refs) != sorted(states):
+        raise TranslateError(f"matcher_item_refs covers {sorted(refs)}")
+    out += ["/-- `State` variants in declaration order: " + ", ".join(f"{i} = {k}" for i, k in enumerate(states)) + "; `State::matcher_item_refs` -/",
+            "def matcher_item_refs (state : Nat) : Nat :=",
+            "  " + " else ".join(f"if state == {states.index(k)} then {refs[k]}" for k in states[:-1]) + f" else {refs[states[-1]]}", ""]
+    for fn in ("canceled", "cleared"):
+        b = fn_bodies(lsrc).get(fn, [])
+        b = [x for x in b if "State::" in x]
+        mm = re.fullmatch(r"\{\s*self (!=|==) State::(\w+)\s*\}", b[0].strip()) if b else None
+        if not mm or mm.group(2) not in states:
+            raise TranslateError(f"State::{fn} has an unexpected shape")
+        out += [f"/-- `State::{fn}` -/", f"def state_{fn} (state : Nat) : Bool := state {'!=' if mm.group(1) == '!=' else '=='} {states.index(mm.group(2))}", ""]
+    body = fn_bodies(lsrc).get("active_injectors", [None])[0]
+    m = re.fullmatch(r"\{\s*Arc::strong_count\(&self\.items\)\s*-\s*self\.state\.matcher_item_refs\(\)\s*-\s*\(Arc::ptr_eq\(&self\.snapshot\.items, &self\.items\)\) as usize\s*\}", (body or "").strip())
+    if not m:
+        raise TranslateError("Nucleo::active_injectors has an unexpected shape")
+    out += ["/-- `Nucleo::active_injectors`: strong count of the current stream, minus the matcher's own handles, minus the snapshot's if it "
+            "points at the current stream -/",
+            "def active_injectors (strong_count state : Nat) (snapshot_is_current : Bool) : Nat :=",
+            "  strong_count - matcher_item_refs state - (if snapshot_is_current then 1 else 0)", "",
+            "end NucleoVerif.Gen.Rules"]
+    return "\n".join(out) + "\n"
+
+
+GENERATORS["Rules.lean"] = gen_rules
+
+
 def rust_struct_fields(src, name):
     m = re.search(r"struct\s+%s\s*\{(.*?)\}" % name, src, re.S)
     if m:
